@@ -340,6 +340,67 @@ fn main() {
         },
     );
 
+    // ------------------------------------------------------------------ loop.* read inside a comprehension
+    // The documentation says `loop.*` cannot be used in a list comprehension and leaves open what
+    // happens when the comprehension stands in a `for` body (the engine answers with the enclosing
+    // loop). Whatever the rule, the five fields are answered by ONE loop: `last` is `index ==
+    // length`, `first` is `index0 == 0`, `index` is `index0 + 1` - read at the same spot (seeded
+    // change C03-8: only `loop.last` was answered by the comprehension's hidden loop).
+    {
+        let probe = "[loop.last == (loop.index == loop.length), loop.first == (loop.index0 == 0), loop.index == loop.index0 + 1]";
+        let outers: [(&str, &str); 5] = [
+            ("array-3", "{% for y in [1, 2, 3] %}"),
+            ("array-1", "{% for y in [7] %}"),
+            ("string", "{% for y in \"aé\" %}"),
+            ("key-value", "{% for k, y in {\"a\": 1, \"b\": 2} %}"),
+            ("nested-inner", "{% for z in [1, 2] %}{% for y in [1, 2, 3] %}"),
+        ];
+        let comps: [(&str, String, &str); 4] = [
+            ("element", format!("{{{{ [{probe} for q in [0, 1]] }}}}"), "[[true, true, true], [true, true, true]]"),
+            ("element-one", format!("{{{{ [{probe} for q in [0]] }}}}"), "[[true, true, true]]"),
+            ("condition", "{{ [q for q in [5, 6] if loop.last == (loop.index == loop.length)] }}".to_string(), "[5, 6]"),
+            ("nested-comprehension", "{{ [[loop.last == (loop.index == loop.length) for r in [0]] for q in [0, 1]] }}".to_string(), "[[true], [true]]"),
+        ];
+        let n_items = (outers.len() * comps.len()) as u64;
+        run.family(
+            Family::new(
+                "loop-fields-in-comprehension",
+                n_items,
+                "5 enclosing loops (3 / 1 elements, a string, key-value, the inner of two) x 4 comprehension positions (element, single element, condition, nested comprehension): last == (index == length), first == (index0 == 0), index == index0 + 1 read inside the comprehension must all hold at every iteration, or the program must be refused",
+            ),
+            |item, acc: &mut Acc| {
+                let (oname, open) = outers[item as usize / comps.len()];
+                let (cname, comp, want) = &comps[item as usize % comps.len()];
+                let closes = if oname == "nested-inner" { "{% endfor %}{% endfor %}" } else { "{% endfor %}" };
+                let src = format!("{open}{comp};{closes}");
+                let t = tera::Tera::default();
+                let out = engine::render_str(&t, &src, &tera::Context::new(), false);
+                let class = match &out {
+                    Out::Ok(text) => {
+                        let pieces: Vec<&str> = text.split(';').filter(|p| !p.is_empty()).collect();
+                        if !pieces.is_empty() && pieces.iter().all(|p| p == want) {
+                            "consistent"
+                        } else {
+                            acc.violation(
+                                format!("loop-fields-inconsistent-in-comprehension:{cname}"),
+                                format!("`{src}` renders {text:?}: at some iteration the loop fields read inside the comprehension contradict one another (every piece should be {want})"),
+                                || json!({"template": src, "enclosing_loop": oname}),
+                            );
+                            "INCONSISTENT"
+                        }
+                    }
+                    // "cannot use the loop.* variables in list comprehension": a refusal is allowed
+                    Out::Err(..) => "refused",
+                    Out::Panic(p) => {
+                        acc.violation("panic:loop-fields-in-comprehension", format!("`{src}` panicked: {p}"), || json!({"template": src}));
+                        "panic"
+                    }
+                };
+                acc.case(true, class);
+            },
+        );
+    }
+
     // ------------------------------------------------------------------ F1
     let f1 = Spec {
         name: "f1-branch",
